@@ -1,3 +1,4 @@
+import ZCV.Lemmas.CodeEqSubst
 import ZCV.Lemmas.SubstExtra
 import ZCV.Lemmas.SubstCor
 /-!
@@ -288,5 +289,99 @@ example :
     substitute (fun k => if k = "a".toList then some [] else none) (fun _ => none) "$a ${Bc_1} $a".toList =
       .error (.missing "$a ${Bc_1} $a".toList "Bc_1".toList) := by
   simp only [substcor_eval_eq]; decide +kernel
+
+end ZCV.Props.C04
+
+/-!
+# C04, restated for the code as it is now (generated by `harness/zcv/pytrans.py`)
+
+`ZCV.Gen.Code.substitute / _split / isname` (`ZCV/Gen/CodeSubstitution.lean`) are the translation of the Python source of
+`ZConfig/substitution.py`, regenerated from the working tree on every run; `mapping.get` and `os.getenv` are the
+parameters `defs` and `env`, `_name_match` is the generated pattern.  `ZCV/Lemmas/CodeEqSubst.lean` proves them equal to
+the hand-written model for all arguments.  `embedSpec` re-tags the documented function's outcome as the exception CLASS the
+code raises (the raise-site number stands for the message and is dropped; a missing name keeps source text and name).
+-/
+namespace ZCV.Props.C04
+open ZCV ZCV.Subst ZCV.SubstSpec ZCV.CodeEq
+
+/-- the documented function's outcome in the generated code's vocabulary -/
+def embedSpec : Except SubstSpec.Err Str → Except Py.PyExc Str
+  | .ok v => .ok v
+  | .error (.syntax _) => .error .SubstitutionSyntaxError
+  | .error (.missing src name) => .error (.SubstitutionReplacementError src (some name))
+
+theorem embedS_eq_embedSpec_conv (x : Except Subst.Err Str) : embedS x = embedSpec (conv x) := by
+  cases x with
+  | ok v => rfl
+  | error e => cases e <;> rfl
+
+/-! ## (i) generated code = model -/
+
+theorem C04_code_isname_eq (s : Str) : Gen.Code.isname s = .ok (Subst.isname s) := code_isname_eq s
+/-- `_split`: the Python 5-tuple `(prefix, name, namecase, suffix, vtype)` is the model's triple with `name = namecase.lower()`;
+    the suffix is `None` exactly when the text has no `$` -/
+theorem C04_code_split_eq (s : Str) : Gen.Code._split s = embedSplit (s.contains '$') (Subst.split s) := code_split_eq s
+/-- `substitute(s, mapping)` with `mapping.get = defs`, `os.getenv = env`: the `while` loop, run with fuel `len(s) + 1`,
+    is the model's -/
+theorem C04_code_substitute_eq (defs env : Str → Option Str) (s : Str) :
+    Gen.Code.substitute env s defs = embedS (Subst.substitute defs env s) := code_substitute_eq defs env s
+/-- what `embedS` forgets: nothing but the raise-site number of a syntax error -/
+theorem C04_code_embedS_injective_upto (a b : Except Subst.Err Str) (h : embedS a = embedS b) :
+    a = b ∨ ∃ i j, a = .error (.syntax i) ∧ b = .error (.syntax j) := embedS_injective_upto a b h
+example : embedS (.error (.syntax 1) : Except Subst.Err Str) = embedS (.error (.syntax 2)) := rfl
+example : embedS (.ok ['a'] : Except Subst.Err Str) ≠ embedS (.ok ['b']) := by simp [embedS]
+
+/-! ## (ii) the contracts, for the generated code -/
+
+/-- Main theorem for the code: for every mapping, environment and string the translation of `substitute` returns what the
+    documented function returns — the same text, or the same class of error (for a missing name: with the same source
+    text and the same name). -/
+theorem C04_code_substitute_eq_spec (defs env : Str → Option Str) (s : Str) :
+    Gen.Code.substitute env s defs = embedSpec (substituteSpec defs env s) := by
+  rw [code_substitute_eq, embedS_eq_embedSpec_conv, C04_substitute_eq_spec]
+
+/-- `isname` (the code) accepts exactly: a letter or underscore followed by letters, digits, underscores -/
+theorem C04_code_isname_spec (s : Str) : Gen.Code.isname s = .ok (isnameSpec s) := by
+  rw [code_isname_eq, C04_isname_spec]
+
+/-- a string without `$` is returned as is (the code) -/
+theorem C04_code_no_dollar_id (defs env : Str → Option Str) (s : Str) (h : '$' ∉ s) :
+    Gen.Code.substitute env s defs = .ok s := by
+  rw [code_substitute_eq, C04_no_dollar_id defs env s h]; rfl
+example : Gen.Code.substitute (fun _ => none) "a{b}".toList (fun _ => none) = .ok "a{b}".toList :=
+  C04_code_no_dollar_id _ _ _ (by decide)
+
+/-- the code raises `SubstitutionSyntaxError` exactly when the documented function reports a malformed construct -/
+theorem C04_code_syntax_error_iff (defs env : Str → Option Str) (s : Str) :
+    Gen.Code.substitute env s defs = .error .SubstitutionSyntaxError ↔ ∃ c, substituteSpec defs env s = .error (.syntax c) := by
+  rw [C04_code_substitute_eq_spec]
+  cases substituteSpec defs env s with
+  | ok v => simp [embedSpec]
+  | error e => cases e <;> simp [embedSpec]
+example : Gen.Code.substitute (fun _ => none) "a$".toList (fun _ => none) = .error .SubstitutionSyntaxError :=
+  have hm : Subst.substitute (fun _ => none) (fun _ => none) "a$".toList = .error (.syntax 0) := by
+    rw [substcor_eval_eq]; decide +kernel
+  (C04_code_syntax_error_iff _ _ _).mpr ⟨0, by rw [← C04_substitute_eq_spec, hm]; rfl⟩
+
+/-- a `SubstitutionReplacementError` of the code carries the WHOLE source text and the name as written -/
+theorem C04_code_missing_carries_source (defs env : Str → Option Str) (s a : Str) (b : Option Str)
+    (h : Gen.Code.substitute env s defs = .error (.SubstitutionReplacementError a b)) : a = s ∧ ∃ n, b = some n := by
+  rw [code_substitute_eq] at h
+  cases hm : Subst.substitute defs env s with
+  | ok v => rw [hm] at h; simp [embedS] at h
+  | error e =>
+    rw [hm] at h
+    cases e with
+    | «syntax» c => simp [embedS, embedSErr] at h
+    | «missing» src name =>
+      simp only [embedS, embedSErr, Except.error.injEq, Py.PyExc.SubstitutionReplacementError.injEq] at h
+      obtain ⟨h1, h2⟩ := h
+      subst h1
+      exact ⟨C04_missing_carries_source defs env s _ _ hm, name, h2.symm⟩
+example : Gen.Code.substitute (fun _ => none) "-$Ab".toList (fun _ => none) =
+    .error (.SubstitutionReplacementError "-$Ab".toList (some "Ab".toList)) := by
+  have hm : Subst.substitute (fun _ => none) (fun _ => none) "-$Ab".toList = .error (.missing "-$Ab".toList "Ab".toList) := by
+    rw [substcor_eval_eq]; decide +kernel
+  rw [C04_code_substitute_eq, hm]; rfl
 
 end ZCV.Props.C04
